@@ -64,11 +64,21 @@ func JudgeC15(c *Ctx, h *History, obs []*Obs) ([]Violation, error) {
 		pred := map[string][]*LConv{}
 		pkgOf := map[string]Predicted{}
 		conflict := ""
+		ambiguous := false
 		for i := range spec.Convs {
 			cv := &spec.Convs[i]
 			p := spec.Predict(cv)
-			if prev, ok := pkgOf[p.Path]; ok && prev.PkgID != p.PkgID {
-				conflict = p.Path
+			if prev, ok := pkgOf[p.Path]; ok {
+				switch {
+				case prev.PkgPath != p.PkgPath || prev.PkgName != p.PkgName:
+					// the converters select different packages for one file: must fail
+					conflict = p.Path
+				case prev.PkgID != p.PkgID:
+					// same package reached through different setting texts (e.g. `path:name`
+					// vs `path` + inferred name): the property does not say whether this counts
+					// as agreement, so nothing is demanded either way
+					ambiguous = true
+				}
 			}
 			if _, ok := pkgOf[p.Path]; !ok {
 				pkgOf[p.Path] = p
@@ -85,7 +95,8 @@ func JudgeC15(c *Ctx, h *History, obs []*Obs) ([]Violation, error) {
 			}
 			continue
 		}
-		if g.Expect == "fail" {
+		if g.Expect == "fail" || ambiguous {
+			c.Stats.Add("c15.skipped_ambiguous_or_defective", 1)
 			continue
 		}
 		if o.Exit != 0 {
@@ -228,7 +239,12 @@ func injectConflict(rng *rand.Rand, s *LSpec) bool {
 	rng.Shuffle(len(idx), func(i, j int) { idx[i], idx[j] = idx[j], idx[i] })
 	a, b := &s.Convs[idx[0]], &s.Convs[idx[1]]
 	a.OutFile, b.OutFile = "@cwd/clash/c.go", "@cwd/clash/c.go"
-	switch rng.IntN(3) {
+	switch rng.IntN(5) {
+	case 3:
+		// one names the package, the other leaves it to be inferred (directory name)
+		a.OutPkg, b.OutPkg = ":custom"+strings.ToLower(a.Name), ""
+	case 4:
+		a.OutPkg, b.OutPkg = importPath("clash"), importPath("clash")+":custom"+strings.ToLower(b.Name)
 	case 0:
 		a.OutPkg, b.OutPkg = importPath("clash")+":one", importPath("clash")+":two"
 	case 1:
